@@ -371,6 +371,19 @@ def chosen_cuts(desc, text, hots):
     return chunks, with_empties, hot_used
 
 
+def reentrant_chunks(chunks):
+    """Yield the chunks, but run other tokenizers / parsers to completion before each one."""
+    from srctools.keyvalues import Keyvalues
+    for chunk in chunks:
+        list(Tokenizer('"loaded" [flag] { other words } // c', string_bracket=True))
+        try:
+            Keyvalues.parse('"manifest"\n{\n"file" "a\\tb"\n}\n')
+            list(Tokenizer('unterminated "string'))
+        except TokenSyntaxError:
+            pass
+        yield chunk
+
+
 def execute_random(desc, ctx):
     text = desc['text']
     mask = desc['mask']
@@ -401,6 +414,10 @@ def execute_random(desc, ctx):
         ('every-construct-cut', all_hot, all_hot),
         ('lines', text.splitlines(keepends=True), '<splitlines(keepends=True)>'),
         ('StringIO', io.StringIO(text), '<io.StringIO>'),
+        # a file-like source that itself tokenizes something else before handing out each piece (an include resolver,
+        # a logger ...): another Tokenizer instance runs between two characters of one token of this one
+        ('reentrant-generator', reentrant_chunks(chunks), chunks),
+        ('reentrant-chars', reentrant_chunks(list(text[:200])) if len(text) <= 200 else chunks, '<characters, re-entrant>'),
     ]
     for how, data, shown in deliveries:
         got = run_tokens(Tokenizer(text, **opts)) if data is None else counted_run(ctx, data, text, opts, mask, how)
